@@ -349,12 +349,12 @@ int main(int argc, char **argv) {
                 if (asan && !thorough && axis_id > 0) continue;
                 for (int a = 0; a < 3; ++a) for (int b = 0; b < 3; ++b) { Task t{int(c), 0, {a, b}, axis_id, 0, 0, {}}; tasks.push_back(t); }
             }
-        else if (thorough && !asan) for (int a = 0; a < 3; ++a) for (int b = 0; b < 3; ++b) { Task t{int(c), 0, {1, 1, 1, 1, 1, 1, 1, 1, a, b}, 0, 0, 0, {}}; tasks.push_back(t); }   // 4D: 16 cells, the first 8 fixed to one copy, {0,1,65}^8 on the rest
+        else if (!asan) for (int a = 0; a < 3; ++a) for (int b = 0; b < 3; ++b) { Task t{int(c), 0, {1, 1, 1, 1, 1, 1, 1, 1, a, b}, 0, 0, 0, {}}; tasks.push_back(t); }   // 4D: 16 cells, the first 8 fixed to one copy, {0,1,65}^8 on the rest
         // (a') thorough, 2D: multiplicities {0,1,2,65,130} on the 3x3 universe (5^9 multisets), split by the first three digits
         if (thorough && D == 2 && c <= 2 && !asan) for (int a = 0; a < 5; ++a) for (int b = 0; b < 5; ++b) for (int d = 0; d < 5; ++d) { Task t{int(c), 4, {a, b, d}, 0, 0, 0, {}}; tasks.push_back(t); }
         // (b) full grids, every box
         std::vector<long> grids;
-        if (D == 2) { grids = {16}; if (c <= 1 || thorough) grids.push_back(32); if (thorough && c <= 1 && !asan) grids.push_back(48); }
+        if (D == 2) { grids = {16, 32}; if (thorough && c <= 1 && !asan) grids.push_back(48); }
         else if (D == 3) grids = thorough ? std::vector<long>{4, 8} : std::vector<long>{8};
         else grids = {4};
         if (asan && !thorough) { if (D == 2) grids = {16}; else if (D == 3) grids = {4}; }
